@@ -1,0 +1,263 @@
+// Copyright 2023-2026 Buf Technologies, Inc.
+//
+// Licensed under the Apache License, Version 2.0 (the "License");
+// you may not use this file except in compliance with the License.
+// You may obtain a copy of the License at
+//
+//      http://www.apache.org/licenses/LICENSE-2.0
+//
+// Unless required by applicable law or agreed to in writing, software
+// distributed under the License is distributed on an "AS IS" BASIS,
+// WITHOUT WARRANTIES OR CONDITIONS OF ANY KIND, either express or implied.
+// See the License for the specific language governing permissions and
+// limitations under the License.
+
+//go:build verif
+
+package vanguard
+
+import (
+	"fmt"
+	"net/http"
+	"time"
+
+	"connectrpc.com/connect"
+)
+
+// This file is only compiled with the "verif" build tag. It exposes
+// unexported leaf functions to an external verification harness. It adds
+// no behavior to the package.
+
+// VerifTimeoutResult is the outcome of decoding a timeout header.
+type VerifTimeoutResult struct {
+	HasTimeout bool
+	Nanos      int64
+	Err        string
+}
+
+func verifErrString(err error) string {
+	if err == nil {
+		return ""
+	}
+	if s := err.Error(); s != "" {
+		return s
+	}
+	return "error"
+}
+
+// VerifGRPCExtractTimeout runs grpcExtractTimeoutFromHeaders on a header value.
+func VerifGRPCExtractTimeout(present bool, value string) VerifTimeoutResult {
+	hdr := http.Header{}
+	if present {
+		hdr.Set("Grpc-Timeout", value)
+	}
+	var meta requestMeta
+	err := grpcExtractTimeoutFromHeaders(hdr, &meta)
+	return VerifTimeoutResult{HasTimeout: meta.hasTimeout, Nanos: int64(meta.timeout), Err: verifErrString(err)}
+}
+
+// VerifConnectExtractTimeout runs connectExtractTimeout on a header value.
+func VerifConnectExtractTimeout(present bool, value string) VerifTimeoutResult {
+	hdr := http.Header{}
+	if present {
+		hdr.Set("Connect-Timeout-Ms", value)
+	}
+	var meta requestMeta
+	err := connectExtractTimeout(hdr, &meta)
+	return VerifTimeoutResult{HasTimeout: meta.hasTimeout, Nanos: int64(meta.timeout), Err: verifErrString(err)}
+}
+
+// VerifRESTDecodeTimeout runs restDecodeTimeout.
+func VerifRESTDecodeTimeout(value string) VerifTimeoutResult {
+	d, err := restDecodeTimeout(value)
+	return VerifTimeoutResult{HasTimeout: err == nil, Nanos: int64(d), Err: verifErrString(err)}
+}
+
+// VerifGRPCEncodeTimeout runs grpcEncodeTimeout.
+func VerifGRPCEncodeTimeout(nanos int64) string { return grpcEncodeTimeout(time.Duration(nanos)) }
+
+// VerifConnectEncodeTimeout runs connectEncodeTimeout.
+func VerifConnectEncodeTimeout(nanos int64) string {
+	return connectEncodeTimeout(time.Duration(nanos))
+}
+
+// VerifRESTEncodeTimeout runs restEncodeTimeout.
+func VerifRESTEncodeTimeout(nanos int64) string { return restEncodeTimeout(time.Duration(nanos)) }
+
+// VerifHTTPStatusFromRPC runs httpStatusCodeFromRPC, reporting a panic as ok=false.
+func VerifHTTPStatusFromRPC(code uint32) (status int, ok bool) {
+	defer func() {
+		if r := recover(); r != nil {
+			status, ok = 0, false
+		}
+	}()
+	return httpStatusCodeFromRPC(connect.Code(code)), true
+}
+
+// VerifHTTPStatusToRPC runs httpStatusCodeToRPC.
+func VerifHTTPStatusToRPC(status int) uint32 { return uint32(httpStatusCodeToRPC(status)) }
+
+// VerifGRPCPercentEncode runs grpcPercentEncode.
+func VerifGRPCPercentEncode(msg string) string { return grpcPercentEncode(msg) }
+
+// VerifGRPCPercentDecode runs grpcPercentDecode.
+func VerifGRPCPercentDecode(msg string) (string, bool) {
+	out, err := grpcPercentDecode(msg)
+	return out, err == nil
+}
+
+// VerifPathEscape runs pathEscape (multi selects pathEncodeMulti).
+func VerifPathEscape(input string, multi bool) string {
+	mode := pathEncodeSingle
+	if multi {
+		mode = pathEncodeMulti
+	}
+	return pathEscape(input, mode)
+}
+
+// VerifPathUnescape runs pathUnescape (multi selects pathEncodeMulti).
+func VerifPathUnescape(input string, multi bool) (string, bool) {
+	mode := pathEncodeSingle
+	if multi {
+		mode = pathEncodeMulti
+	}
+	out, err := pathUnescape(input, mode)
+	return out, err == nil
+}
+
+// VerifParseMultiHeader runs parseMultiHeader.
+func VerifParseMultiHeader(vals []string) []string { return parseMultiHeader(vals) }
+
+// VerifEnvelope mirrors the envelope struct.
+type VerifEnvelope struct {
+	Trailer    bool
+	Compressed bool
+	Length     uint32
+}
+
+func verifEnveloper(which string) envelopedProtocolHandler {
+	switch which {
+	case "grpc-client":
+		return grpcClientProtocol{}
+	case "grpc-server":
+		return grpcServerProtocol{}
+	case "grpcweb-client":
+		return grpcWebClientProtocol{}
+	case "grpcweb-server":
+		return grpcWebServerProtocol{}
+	case "connect-client":
+		return connectStreamClientProtocol{}
+	case "connect-server":
+		return connectStreamServerProtocol{}
+	default:
+		return nil
+	}
+}
+
+// VerifDecodeEnvelope runs the named handler's decodeEnvelope.
+func VerifDecodeEnvelope(which string, raw [5]byte) (VerifEnvelope, bool) {
+	env, err := verifEnveloper(which).decodeEnvelope(envelopeBytes(raw))
+	if err != nil {
+		return VerifEnvelope{}, false
+	}
+	return VerifEnvelope{Trailer: env.trailer, Compressed: env.compressed, Length: env.length}, true
+}
+
+// VerifEncodeEnvelope runs the named handler's encodeEnvelope.
+func VerifEncodeEnvelope(which string, env VerifEnvelope) [5]byte {
+	return [5]byte(verifEnveloper(which).encodeEnvelope(envelope{
+		trailer: env.Trailer, compressed: env.Compressed, length: env.Length,
+	}))
+}
+
+// VerifPathVar mirrors pathVariable.
+type VerifPathVar struct {
+	FieldPath  string
+	Start, End int
+}
+
+// VerifParsePathTemplate runs parsePathTemplate.
+func VerifParsePathTemplate(template string) (path []string, verb string, vars []VerifPathVar, ok bool) {
+	segs, variables, err := parsePathTemplate(template)
+	if err != nil {
+		return nil, "", nil, false
+	}
+	vars = make([]VerifPathVar, len(variables))
+	for i, v := range variables {
+		vars[i] = VerifPathVar{FieldPath: v.fieldPath, Start: v.start, End: v.end}
+	}
+	return segs.path, segs.verb, vars, true
+}
+
+// VerifRoute is one (HTTP method, path template) binding for VerifTrie.
+type VerifRoute struct {
+	Method   string
+	Template string
+}
+
+// VerifTrie wraps a routeTrie built from bare templates (no method config).
+type VerifTrie struct {
+	trie    routeTrie
+	targets []*routeTarget
+}
+
+// VerifNewTrie parses and inserts routes in order. The result's i'th entry
+// is "" when route i was inserted, else the error text; routes failing to
+// parse or insert are skipped.
+func VerifNewTrie(routes []VerifRoute) (*VerifTrie, []string) {
+	result := &VerifTrie{}
+	errs := make([]string, len(routes))
+	for i, route := range routes {
+		segs, variables, err := parsePathTemplate(route.Template)
+		if err != nil {
+			errs[i] = "parse: " + err.Error()
+			result.targets = append(result.targets, nil)
+			continue
+		}
+		vars := make([]routeTargetVar, len(variables))
+		for j, v := range variables {
+			vars[j] = routeTargetVar{pathVariable: v}
+		}
+		target := &routeTarget{method: route.Method, path: segs.path, verb: segs.verb, vars: vars}
+		if func() (failed bool) {
+			defer func() {
+				if r := recover(); r != nil {
+					errs[i] = fmt.Sprint("panic: ", r)
+					failed = true
+				}
+			}()
+			if err := result.trie.insert(route.Method, target, segs); err != nil {
+				errs[i] = "insert: duplicate"
+				return true
+			}
+			return false
+		}() {
+			result.targets = append(result.targets, nil)
+			continue
+		}
+		result.targets = append(result.targets, target)
+	}
+	return result, errs
+}
+
+// Match runs routeTrie.match. index is the position of the matched route
+// in the list given to VerifNewTrie, or -1.
+func (t *VerifTrie) Match(uriPath, httpMethod string) (index int, vars []string, allowed []string) {
+	target, varMatches, methods := t.trie.match(uriPath, httpMethod)
+	index = -1
+	if target != nil {
+		for i, candidate := range t.targets {
+			if candidate == target {
+				index = i
+			}
+		}
+		vars = make([]string, len(varMatches))
+		for i, v := range varMatches {
+			vars[i] = v.value
+		}
+	}
+	for method := range methods {
+		allowed = append(allowed, method)
+	}
+	return index, vars, allowed
+}
